@@ -194,7 +194,7 @@ func (r RawSuite) Validate() error {
 
 func parseRawSuite(raw string) (SuiteConfig, error) {
 	parts := strings.Split(raw, ":")
-	if len(parts) < 3 {
+	if len(parts) != 3 {
 		return SuiteConfig{}, fmt.Errorf("invalid OCRA suite format: %q", raw)
 	}
 
@@ -203,7 +203,7 @@ func parseRawSuite(raw string) (SuiteConfig, error) {
 	dataInput := parts[2]
 
 	// minimal checks
-	if !strings.HasPrefix(parts[0], "OCRA-1") {
+	if strings.ToUpper(parts[0]) != "OCRA-1" {
 		return SuiteConfig{}, fmt.Errorf("unsupported OCRA version: %q", parts[0])
 	}
 
@@ -312,6 +312,15 @@ func parseDataInputTokens(cfg *SuiteConfig, input string) error {
 			}
 			cfg.TimeStep = secs
 		case strings.HasPrefix(tokU, "S"): // session data e.g. "S064"?
+			if tokU != "S" {
+				// only "S" or "Snnn" (three decimal digits) are session tokens
+				if len(tokU) != 4 {
+					return fmt.Errorf("unknown data input token %q", tok)
+				}
+				if _, err := strconv.ParseUint(tokU[1:], 10, 16); err != nil {
+					return fmt.Errorf("unknown data input token %q", tok)
+				}
+			}
 			cfg.IncludeSession = true
 			// parse length if needed
 		default:
